@@ -12,7 +12,7 @@ C18.  `Readable cx d n s` / `Writable cx d n s` transcribe the statement:
               converter the formula variables are readable)
   immediates (true constants) are readable and never writable; value-store slots are both.
 "implemented / available / locked" refer to the *current value* of the controlling
-node (boolean node: its value; integer node: value = 1); the current values of
+node (boolean node: its value; integer node: value ≠ 0); the current values of
 controlling nodes and of pIndex selectors are taken from the value semantics
 (`execRec`), at the reference depth `d` at which the node itself is evaluated.
 `d` bounds the length of reference chains followed (a node at the end of a longer
@@ -26,11 +26,22 @@ section
 variable {F E : Type} (cx : Ctx F E)
 
 /-- Current truth value of a controlling node (`pIsImplemented`, `pIsAvailable`,
-`pIsLocked`): `some b` if its value can be obtained. -/
+`pIsLocked`), stated from the GenApi convention and the raw values of the node — NOT
+through the code's `bool_from_id`: a boolean node counts as its value, an integer node as
+true exactly when its integer value is non-zero (GenICam reference implementation
+`CBooleanPolyRef::GetValue`: `GetValue() != 0`; device descriptions feed these elements
+mask expressions such as `REG & 0x4`); any other kind of node, or a node whose value
+cannot be obtained, gives no truth value. -/
 def ctlValue (d : Nat) (c : NodeId) (s : S F) : Option Bool :=
-  match (boolFromId cx (execRec cx d) c s).1 with
-  | .ok b => some b
-  | _ => none
+  if isBoolKind cx c then
+    match ((execRec cx d).boolValue c s).1 with
+    | .ok b => some b
+    | _ => none
+  else if isIntKind cx c then
+    match ((execRec cx d).intValue c s).1 with
+    | .ok v => some (decide (v ≠ 0))
+    | _ => none
+  else none
 
 /-- Current value of a pIndex selector. -/
 def selValue (d : Nat) (sel : NodeId) (s : S F) : Option Int :=
